@@ -74,6 +74,43 @@ Theorem C14_timer_armed_when_unblocked : forall validated0 pto ops,
 Proof. exact timer_armed_when_unblocked. Qed.
 Print Assumptions C14_timer_armed_when_unblocked.
 
+(** Histories that end with a local close (as repaired by fixes/C14-close-ungated.patch): the bound
+    over EVERYTHING the server puts on the wire — packets registered with the handler, the
+    CONNECTION_CLOSE datagram written by handleCloseError, its retransmissions by
+    closedLocalConn — against everything that reached it, at every prefix. *)
+Theorem C14_amplification_bound_close : forall validated0 pto ops k c last,
+  Forall wf_cop ops ->
+  crun_g (cinit validated0 pto, 0) (firstn k ops) = (c, last) ->
+  validated (sph c) = false ->
+  wireSent c <= 3 * wireRcvd c + last.
+Proof. exact amplification_bound_close. Qed.
+Print Assumptions C14_amplification_bound_close.
+
+(** An unvalidated server that has sent something and used up its limit closes silently:
+    no CONNECTION_CLOSE is written, and nothing that arrives later makes it send anything. *)
+Theorem C14_close_gated : forall c size ops,
+  closedPkt c = None -> validated (sph c) = false ->
+  0 < bytesSent (sph c) -> 3 * bytesReceived (sph c) <= bytesSent (sph c) ->
+  crun c (Close false size :: ops) = CS (sph c) (Some 0) 0 0 0 0.
+Proof. exact close_gated. Qed.
+Print Assumptions C14_close_gated.
+
+(** Regression: the witness of the former finding ampconn/close-ungated (2x1200 B received,
+    6x1280 B sent, application close with a 106 B CONNECTION_CLOSE, 37 B datagrams afterwards)
+    now ends at 7680 bytes; under the limit the close is written once and retransmitted for the
+    1st, 2nd and 4th datagram only while within 3x of what arrived after the close. *)
+Example C14_close_regression :
+  Forall wf_cop close_example_ops /\
+  (let c := crun (cinit false 200000000) close_example_ops in
+   wireSent c = 7680 /\ wireRcvd c = 2400 /\ closedPkt c = Some 0) /\
+  (let c := crun (cinit false 200000000)
+              (firstn 7 close_example_ops ++ [Close false 106; ClosedRecv 37; ClosedRecv 37; ClosedRecv 37; ClosedRecv 37]) in
+   wireSent c = 6400 + 106 + 3 * 106 /\ wireRcvd c = 2400 + 148 /\ closedPkt c = Some 106) /\
+  (let c := crun (cinit false 200000000) (firstn 7 close_example_ops ++ [Close false 106; ClosedRecv 21]) in
+   wireSent c = 6400 + 106).
+Proof. exact close_example_run. Qed.
+Print Assumptions C14_close_regression.
+
 (** Non-vacuity: a well-formed history that reaches the limit, is blocked, is unblocked by
     a 40-byte datagram, overshoots by one datagram, and is finally validated. *)
 Example C14_amplification_example :
